@@ -172,3 +172,19 @@ impl<V> DotBuilder for IpMatcher<V> {
         Some(node_name)
     }
 }
+
+#[cfg(feature = "verif")]
+mod verif_hooks {
+    use super::IpMatcher;
+    use crate::router::verif_hooks::VerifRouterDump;
+
+    impl<T> IpMatcher<T> {
+        pub(crate) fn verif_walk(&self, path: &str, dump: &mut VerifRouterDump) {
+            self.no_matcher.verif_walk(format!("{path}/ip=*").as_str(), dump);
+
+            for (ip, matcher) in &self.matchers {
+                matcher.verif_walk(format!("{path}/ip={ip}").as_str(), dump);
+            }
+        }
+    }
+}
